@@ -365,6 +365,11 @@ class Exec(Engine):
                 yield SInt(ln), p1
             elif isinstance(v, SConc):
                 yield SInt(len(v.v)), p1
+            elif isinstance(v, SRec) and v.cls == "val":
+                ln = z3.Int(f"len_rec[{id(v)}]")
+                p1.pc.append(ln >= 0)
+                s.abstracted.add("len() of a provenance record (uninterpreted non-negative integer)")
+                yield SInt(ln), p1
             else:
                 raise OutOfSubset("len")
 
